@@ -328,7 +328,7 @@ def _arms(ctx, u, k):
         l, arms, other = ve
         ty = body.locals[l]["ty"]
         if not ty.startswith("std::result::Result<"): continue
-        tgt = arms.get(1)
+        tgt = arms.get(1, other)
         if tgt is None: continue
         (err_timeout if "Elapsed" in ty else err_item).append(tgt)
     under = lambda b, edges: any(body.dominates(e, b) for e in edges)
